@@ -16,7 +16,8 @@ MCNMax == 8
 MCIdxMin == -7
 MCIdxMax == 7
 MCOMS == {1, 2, 3, 4}
-MCUnusable == [o \in MCOMS |-> IF o \in {3, 4} THEN 5..8 ELSE {}]
+\* link 2: top of the axis outside the amplifier band; its two lowest indices were added by grid alignment
+MCUnusable == [o \in MCOMS |-> IF o \in {3, 4} THEN (5..8) \cup {-8, -7} ELSE {}]
 
 MCTemplates == <<
   T({1, 2},       <<S(NONE, NONE)>>,             1, 2, FALSE),
